@@ -24,6 +24,10 @@ def main(argv=None):
     mod = importlib.import_module("vmc.props." + prop.lower())
     if args.replay:
         doc = json.load(open(args.replay))
+        if doc["case"].get("kind") == "shard":
+            sys.__stdout__.write("this replay file records an unexpected library exception for a whole shard:\n%s\n%s\n"
+                                 "re-run ./check %s to reproduce it\n" % (doc["what"], doc["case"].get("traceback", ""), prop))
+            return 1
         with core.quiet():
             viols = mod.replay(doc["case"])
         out = sys.__stdout__
